@@ -98,16 +98,27 @@ Definition spec_rel (σ : gmap N (gmap N elem)) (o : op) (r : out) (σ' : gmap N
   | ORawEntry s variant k ss => chain_rel true None σ s k ss r σ'
   | ORawGet s variant k => exists m : gmap N elem, σ !! s = Some m /\
       r = OutOKV ((fun e => (ekid e, ev e)) <$> m !! k) /\ σ' = σ
+  (* extend / from_iter: one insert after the other *)
+  | OExtend s items hint => exists m : gmap N elem, σ !! s = Some m /\
+      ((r = OutU /\ σ' = <[s := ext m items]> σ) \/ (r = OutP PCapOverflow /\ exists m' : gmap N elem, σ' = <[s := m']> σ))
+  | OFromIter s hs items hint =>
+      (r = OutU /\ σ' = <[s := ext ∅ items]> σ) \/ (r = OutP PCapOverflow /\ exists m' : gmap N elem, σ' = <[s := m']> σ)
+  (* rayon traversals: the sequential iterator's elements (shown sorted), whatever the schedule *)
+  | OParIter s variant delta splits =>
+      exists (m : gmap N elem) l, σ !! s = Some m /\ NoDup (map ek l) /\ list_to_emap l = m /\
+        r = OutL (foldr insert_sorted [] (map elem3 l)) /\ σ' = <[s := if delta =? 0 then m else bumpv delta <$> m]> σ
+  | OParExtend s chunks => exists m : gmap N elem, σ !! s = Some m /\
+      ((r = OutU /\ σ' = <[s := ext m (concat chunks)]> σ) \/ (r = OutP PCapOverflow /\ exists m' : gmap N elem, σ' = <[s := m']> σ))
   (* HashSet algebra: each key of the mathematical result exactly once (the result is shown
      sorted; l is what was yielded), every yielded object an element of one of the operands *)
   | OSetAlg kind a b => exists ma mb : gmap N elem, σ !! a = Some ma /\ σ !! b = Some mb /\ σ' = σ /\
-      exists l, r = OutL (sorted3 l) /\ alg_ok (if kind <? 4 then kind else kind - 4) ma mb l
+      exists l, r = OutL (sorted3 l) /\ alg_ok (alg_kind kind) ma mb l
   | OSetPred kind a b => exists ma mb : gmap N elem, σ !! a = Some ma /\ σ !! b = Some mb /\ σ' = σ /\
-      exists bb, r = OutB bb /\ (bb = true <-> pred_math kind ma mb)
-  | _ => True
+      exists bb, r = OutB bb /\ (bb = true <-> pred_math (pred_kind kind) ma mb)
   end.
 
-(* the operations covered so far by the refinement theorem *)
+(* the operations covered by the refinement theorem: all of them; the side conditions exclude
+   arguments beyond usize::MAX, which a Rust caller cannot pass *)
 Definition core_op (o : op) : Prop :=
   match o with
   | ONew _ _ cap => True
@@ -115,9 +126,10 @@ Definition core_op (o : op) : Prop :=
   | OIter _ _ _ | ORetain _ _ _ | ODrainFilter _ _ _ _ _ | ODrain _ _ _ | OIntoIter _ _ => True
   | OClone _ _ | OCloneFrom _ _ | OEq _ _ => True
   | OEntry _ _ _ _ | ORawEntry _ _ _ _ | ORawGet _ _ _ => True
-  | OSetAlg _ _ _ | OSetPred _ _ _ => True
+  | OSetAlg _ _ _ | OSetPred _ _ _ | OParIter _ _ _ _ | OFromIter _ _ _ _ => True
+  | OExtend _ _ hint => hint <= usize_max
+  | OParExtend _ chunks => N.of_nat (length (concat chunks)) < usize_max
   | OReserve _ n | OTryReserve _ n => n <= usize_max
-  | _ => False
   end.
 
 
@@ -387,6 +399,44 @@ Proof.
                intros Hr. apply Hj2. intros ->. apply Hr. reflexivity. }
       rewrite wabs_store. reflexivity.
     + intros s1 HI1. right. split; [reflexivity|apply WInv_store; assumption].
+  - (* OExtend *)
+    apply wres_rmap. destruct (w_maps w !! s) as [ms|] eqn:Hs; [|apply with_slot_gen_missing; exact Hs].
+    pose proof (HW s ms Hs) as HI.
+    apply with_slot_gen_spec with (ms := ms); [exact Hs|]. intros _.
+    eapply wp_conseq; [apply (map_extend_spec c items hint); [exact HI|exact Hcore]| |]; cbn [load s_rt].
+    + intros [] s1 [HI1 Habs1]. unfold step_post. split; [apply WInv_store; assumption|].
+      rewrite Eop. cbn [spec_rel]. exists (rt_abs (m_rt ms)). split; [apply wabs_lookup; exact Hs|]. left.
+      split; [reflexivity|]. rewrite wabs_store, Habs1. reflexivity.
+    + intros p s1 [HI1 [->| ->]].
+      * right. split; [reflexivity|apply WInv_store; assumption].
+      * left. split; [discriminate|]. unfold step_post. split; [apply WInv_store; assumption|].
+        rewrite Eop. cbn [spec_rel]. exists (rt_abs (m_rt ms)). split; [apply wabs_lookup; exact Hs|]. right.
+        split; [reflexivity|]. eexists. apply wabs_store.
+  - (* OFromIter *)
+    set (w0 := W (<[s := MS rt_new hs hs]> (w_maps w)) (w_log w) (w_fuse w)).
+    pose proof (WInv_insert_new w s hs HW) as HW0. fold w0 in HW0.
+    assert (Hw0abs : forall x, <[s := x]> (wabs w0) = <[s := x]> (wabs w)).
+    { intros x. unfold w0, wabs. cbn [w_maps]. rewrite fmap_insert, insert_insert. reflexivity. }
+    apply wres_rmap.
+    apply with_slot_gen_spec with (ms := MS rt_new hs hs); [unfold w0; cbn; apply lookup_insert|].
+    intros _. cbn [m_hs m_filed]. apply wp_bind. apply hb_with_capacity_spec.
+    + intros t0 s1 Hs1 Hem Hn0 Hok Hgl Hcap _ _. wp_steps.
+      set (s2 := set_rt _ s1).
+      assert (HI2 : Inv R ES (s_rt s2)).
+      { unfold s2. cbn [set_rt s_rt]. rewrite Hs1. cbn [load s_rt m_rt lo main]. split; [exact HRpos|]. split; [exact Hok|exact I]. }
+      assert (Habs2 : rt_abs (s_rt s2) = ∅).
+      { unfold s2, rt_abs. cbn [set_rt s_rt main lo]. rewrite Hs1. cbn [load s_rt m_rt lo]. rewrite Hem. apply (left_id_L ∅ (∪)). }
+      eapply wp_conseq; [apply (insert_all_spec c items s2 HI2)| |].
+      * intros [] s3 [HI3 Habs3]. unfold step_post. split; [apply WInv_store; assumption|].
+        rewrite Eop. cbn [spec_rel]. left. split; [reflexivity|]. rewrite wabs_store, Habs3, Habs2. apply Hw0abs.
+      * intros p s3 [HI3 [->| ->]].
+        -- right. split; [reflexivity|apply WInv_store; assumption].
+        -- left. split; [discriminate|]. unfold step_post. split; [apply WInv_store; assumption|].
+           rewrite Eop. cbn [spec_rel]. right. split; [reflexivity|]. eexists. rewrite wabs_store. apply Hw0abs.
+    + discriminate.
+    + intros _. left. split; [discriminate|]. unfold step_post. split.
+      * apply WInv_store; [exact HW0|]. apply Inv_new. exact HRpos.
+      * rewrite Eop. cbn [spec_rel]. right. split; [reflexivity|]. eexists. rewrite wabs_store. apply Hw0abs.
   - (* OClone *)
     destruct (w_maps w !! s) as [ms|] eqn:Hs; [|right; reflexivity].
     destruct (negb (m_filed ms =? m_hs ms)); [right; reflexivity|].
@@ -504,18 +554,49 @@ Proof.
     destruct (_ || _); [right; reflexivity|]. cbn [wres]. unfold step_post. split; [exact HW|].
     rewrite Eop. cbn [spec_rel]. exists (rt_abs (m_rt ma)), (rt_abs (m_rt mb)).
     split; [apply wabs_lookup, Ea|]. split; [apply wabs_lookup, Eb|]. split; [reflexivity|].
-    pose proof (HW a ma Ea) as Ia. pose proof (HW b mb Eb) as Ib. unfold set_alg. destruct (kind <? 4).
+    pose proof (HW a ma Ea) as Ia. pose proof (HW b mb Eb) as Ib. unfold set_alg, alg_kind. destruct (kind <? 4); [|destruct (kind <? 8)].
     + eexists. split; [reflexivity|]. apply (s_alg_spec c); assumption.
     + eexists. split; [reflexivity|]. pose proof (s_alg_spec c (kind - 4) _ _ Ia Ib) as Hok.
       eapply alg_ok_perm; [apply collect_perm; apply Hok|exact Hok].
+    + eexists. split; [reflexivity|]. apply (s_alg_par_spec c); assumption.
   - (* OSetPred *)
     destruct (w_maps w !! a) as [ma|] eqn:Ea; [|right; reflexivity]. destruct (w_maps w !! b) as [mb|] eqn:Eb; [|right; reflexivity].
     destruct (_ || _); [right; reflexivity|]. cbn [wres]. unfold step_post. split; [exact HW|].
     rewrite Eop. cbn [spec_rel]. exists (rt_abs (m_rt ma)), (rt_abs (m_rt mb)).
     split; [apply wabs_lookup, Ea|]. split; [apply wabs_lookup, Eb|]. split; [reflexivity|].
     pose proof (HW a ma Ea) as Ia. pose proof (HW b mb Eb) as Ib. eexists. split; [reflexivity|].
-    unfold set_pred, pred_math. destruct kind as [|[[p|p|]|[p|p|]|]];
-      first [apply (s_is_disjoint_spec c); assumption | apply (s_is_subset_spec c); assumption | apply (s_eq_spec c); assumption].
+    assert (Hpe : forall x y, Inv R ES x -> Inv R ES y ->
+              (rt_len x =? rt_len y) && s_par_is_subset x y = true <-> (forall k, is_Some (rt_abs x !! k) <-> is_Some (rt_abs y !! k))).
+    { intros x y Hx Hy. rewrite <- (s_eq_spec c x y Hx Hy). unfold s_eq, s_par_is_subset. reflexivity. }
+    unfold set_pred, pred_math, pred_kind.
+    destruct kind as [|[[[p|p|]|[p|p|]|]|[[p|p|]|[p|p|]|]|]]; cbn;
+      first [apply (s_is_disjoint_spec c); assumption | apply (s_is_subset_spec c); assumption | apply (s_eq_spec c); assumption
+            | apply (s_par_is_subset_spec c); assumption | apply Hpe; assumption].
+  - (* OParIter *)
+    apply wres_rmap. destruct (w_maps w !! s) as [ms|] eqn:Hs; [|apply with_slot_gen_missing; exact Hs].
+    pose proof (HW s ms Hs) as HI.
+    apply with_slot_gen_spec with (ms := ms); [exact Hs|]. intros _.
+    unfold wp. rewrite map_par_iter_eq. fold (wp (map_iter delta)
+      (fun a s' => step_post w t (OutL (foldr insert_sorted [] a)) (store w s (m_hs ms) (m_filed ms) s'))
+      (fun p s' => step_U w t p (store w s (m_hs ms) (m_filed ms) s')) (load w ms (t_on t, t_tomb t) (t_perm t, t_qperm t))).
+    apply (map_iter_spec c delta); [exact HI|]. intros l s1 Hit HI1 Habs1. cbn [load s_rt] in *.
+    destruct (iter_of_abs c _ _ HI Hit) as [Hemap Hnd].
+    unfold step_post. split; [apply WInv_store; assumption|]. rewrite Eop. cbn [spec_rel].
+    exists (rt_abs (m_rt ms)), (map snd l). split; [apply wabs_lookup; exact Hs|]. split; [exact Hnd|]. split; [exact Hemap|].
+    split; [rewrite map_map; reflexivity|]. rewrite wabs_store, Habs1. reflexivity.
+  - (* OParExtend *)
+    apply wres_rmap. destruct (w_maps w !! s) as [ms|] eqn:Hs; [|apply with_slot_gen_missing; exact Hs].
+    pose proof (HW s ms Hs) as HI.
+    apply with_slot_gen_spec with (ms := ms); [exact Hs|]. intros _.
+    eapply wp_conseq; [apply (map_par_extend_spec c chunks); [exact HI|exact Hcore]| |]; cbn [load s_rt].
+    + intros [] s1 [HI1 Habs1]. unfold step_post. split; [apply WInv_store; assumption|].
+      rewrite Eop. cbn [spec_rel]. exists (rt_abs (m_rt ms)). split; [apply wabs_lookup; exact Hs|]. left.
+      split; [reflexivity|]. rewrite wabs_store, Habs1. reflexivity.
+    + intros p s1 [HI1 [->| ->]].
+      * right. split; [reflexivity|apply WInv_store; assumption].
+      * left. split; [discriminate|]. unfold step_post. split; [apply WInv_store; assumption|].
+        rewrite Eop. cbn [spec_rel]. exists (rt_abs (m_rt ms)). split; [apply wabs_lookup; exact Hs|]. right.
+        split; [reflexivity|]. eexists. apply wabs_store.
 Qed.
 
 (* ------------------------------------------------------------------ without a fuse, no user panic *)
@@ -562,6 +643,10 @@ Proof.
     unfold with_slot. destruct (with_slot_gen false w s (t_on t, t_tomb t) (t_perm t, t_qperm t) (map_into_iter j)); exact H.
   - apply wnf_rmap. apply with_slot_gen_nf; [|exact Hf]. apply nf_map_retain.
   - apply wnf_rmap. apply with_slot_gen_nf; [|exact Hf]. apply nf_map_drain_filter.
+  - apply wnf_rmap. apply with_slot_gen_nf; [|exact Hf]. apply nf_map_extend.
+  - apply wnf_rmap. apply with_slot_gen_nf; [|exact Hf].
+    apply nf_bind; [apply (nf_of_cost _ _ (cost_hb_with_capacity c false hint))|]. intros [t0|]; [|apply nf_bind; [apply nf_fault|intros _; apply nf_insert_all]].
+    apply nf_bind; [apply (nf_of_cost dz), cost_setm|intros _; apply nf_insert_all].
   - (* OClone *)
     destruct (w_maps w !! s) as [ms|]; [|exact I]. destruct (negb _); [exact I|].
     pose proof (nf_rt_clone c (load w ms (t_on t, t_tomb t) (t_perm t, t_qperm t))) as H. unfold wpp, fq, fu in H.
@@ -581,6 +666,8 @@ Proof.
   - apply with_slot_gen_nf; [|exact Hf]. apply (nf_of_cost _ _ (cost_map_raw_get variant k)).
   - destruct (w_maps w !! a) as [ma|]; [|exact I]. destruct (w_maps w !! b) as [mb|]; [|exact I]. destruct (_ || _); [exact I|exact Hf].
   - destruct (w_maps w !! a) as [ma|]; [|exact I]. destruct (w_maps w !! b) as [mb|]; [|exact I]. destruct (_ || _); [exact I|exact Hf].
+  - apply wnf_rmap. apply with_slot_gen_nf; [|exact Hf]. apply nf_map_par_iter.
+  - apply wnf_rmap. apply with_slot_gen_nf; [|exact Hf]. apply nf_map_par_extend.
 Qed.
 
 (* ------------------------------------------------------------------ histories *)
